@@ -184,6 +184,96 @@ def h_shooting(h):
                 conc=lambda: abs(res) <= 1e-9)
 
 
+def h_maxal(h, part):
+    """template.maxAl: (a) the residual it brackets is the SAME wall-matching residual as _eqWall
+    (evaluated through the real _eqWall with getVp / wFromAlpha pinned to the closure's v+ and w+);
+    (b) its sentinels: no sign change below the cap => the cap (no finite bound); residual positive
+    from the lower limit on => the lower limit; otherwise a bracketed zero."""
+    from props.hydrokit import ScipyStubs
+    t = make_template(h)
+    st = ScipyStubs(h)
+    captured = {}
+    real_rs, real_ms = st.root_scalar, st.minimize_scalar
+
+    def rs(f, *a, **k):
+        captured["f"] = f
+        return real_rs(f, *a, **k)
+
+    def ms(f, *a, **k):
+        captured.setdefault("m", []).append(f)
+        return real_ms(f, *a, **k)
+    h.patch_always(HT, root_scalar=rs, minimize_scalar=ms)
+    if part == "residual":
+        probe = h.real("alN_probe", 0.01, 5.0, default=0.3)
+        seen = {}
+
+        def spy_rs(f, *a, **k):
+            seen["f"] = f
+            raise _Captured()
+
+        def spy_ms(f, *a, **k):
+            seen["f"] = f
+            raise _Captured()
+        h.patch_always(HT, root_scalar=spy_rs, minimize_scalar=spy_ms)
+        try:
+            t.maxAl(100.0)
+        except _Captured:
+            pass
+        f = seen["f"]
+        val = f(probe)
+        # the closure handed to minimize_scalar may be -matching: recover the sign from the code path
+        vw = t.findJouguetVelocity(probe)
+        vp = t.cs2 / vw
+        vm = t.cb
+        wp = (vp + vw - vw * t.mu) / (vp + vw - vp * t.mu)
+        al = (t.mu - t.nu) / (3 * t.mu) + (probe - (t.mu - t.nu) / (3 * t.mu)) / wp
+        t.getVp = lambda vm_, al_, branch=-1: vp
+        t.wFromAlpha = lambda al_: wp
+        ref = t._eqWall(al, vm)
+        h.prove("maxAl brackets the same wall-matching residual as _eqWall (up to the sign used for maximising)",
+                core.OR(core.eq(val, ref), core.eq(val, -ref)),
+                conc=(lambda: min(abs(val - ref), abs(val + ref)) <= 1e-9 * (1 + abs(ref))) if not h.symbolic else None)
+        return
+    cap = 100.0
+    out = t.maxAl(cap)
+    lower = (1 - t.psiN) / 3
+    roots = [c for c in st.calls if c[0] == "root_scalar"]
+    mins = [c for c in st.calls if c[0] == "minimize_scalar"]
+
+    def M(alN):
+        """the wall-matching residual at alN through the real _eqWall (shown equal to the closure by
+        the 'residual' part)"""
+        vw = t.findJouguetVelocity(alN)
+        vp = t.cs2 / vw
+        wp = (vp + vw - vw * t.mu) / (vp + vw - vp * t.mu)
+        al = (t.mu - t.nu) / (3 * t.mu) + (alN - (t.mu - t.nu) / (3 * t.mu)) / wp
+        g, w = t.getVp, t.wFromAlpha
+        t.getVp, t.wFromAlpha = (lambda vm_, al_, branch=-1: vp), (lambda al_: wp)
+        try:
+            return t._eqWall(al, t.cb)
+        finally:
+            t.getVp, t.wFromAlpha = g, w
+    if not roots:
+        neg_at_cap = lt(M(cap), 0)
+        if (neg_at_cap.symbolic and core.cur().branch(neg_at_cap.z)) or (not neg_at_cap.symbolic and neg_at_cap.b):
+            if len(mins) == 1:
+                # residual negative at the cap and (by the maximiser) everywhere below: no finite bound
+                h.prove("no sign change of the residual below the cap => the cap is returned (no finite bound)",
+                        Cond(b=(not isinstance(out, Sym)) and out == cap))
+            else:
+                h.prove_eq("after the cap was lowered to the maximiser: residual positive from the lower limit on => lower limit",
+                           out, lower)
+        else:
+            h.prove_eq("residual non-negative at the cap and positive from the lower limit on => lower limit", out, lower)
+    else:
+        h.prove_eq("bracketed zero of the residual", captured["f"](out), 0.0)
+        h.prove("inside [lower limit, cap]", AND(ge(out, lower), le(out, cap)))
+
+
+class _Captured(Exception):
+    pass
+
+
 AX = [axioms.pow_axioms, pow_inverse_axioms]
 
 HARNESSES = [
@@ -197,6 +287,9 @@ HARNESSES = [
                encodes=[HT.HydrodynamicsTemplateModel.detonationVAndT], random_validation=3),
     HarnessDef("template-ode", h_ode, [dict(wave="shock"), dict(wave="rarefaction")], max_paths=20, timeout_s=60,
                axioms=AX, encodes=[HT.HydrodynamicsTemplateModel._dxiAndWdv], random_validation=3),
+    HarnessDef("template-maxAl", h_maxal, [dict(part="residual"), dict(part="sentinels")], max_paths=200, timeout_s=60,
+               axioms=AX, encodes=[HT.HydrodynamicsTemplateModel.maxAl, HT.HydrodynamicsTemplateModel._eqWall],
+               random_validation=2, concrete_alarms=False, feas_timeout_ms=300),
     HarnessDef("shooting-residual", h_shooting, [dict()], max_paths=60, timeout_s=120, axioms=AX,
                encodes=[HT.HydrodynamicsTemplateModel._shooting], random_validation=1),
 ]
